@@ -290,7 +290,7 @@ impl<'v> StarlarkValue<'v> for StarlarkStr {
             }
         } else {
             let len_chars = fast_string::len(self);
-            let ind = CharIndex((-i) as usize); // Index from the end, minimum of 1
+            let ind = CharIndex(i.unsigned_abs() as usize); // Index from the end, minimum of 1
             if ind > len_chars {
                 Err(ValueError::IndexOutOfBound(i).into())
             } else if len_chars.0 == self.len() {
